@@ -179,7 +179,7 @@ func runC04(c *Ctx) {
 	c.ruleBatchOrder("R04.6")
 	// one dispatcher at a time, also across a Restart: two dispatchers start jobs out of queue order
 	c.ruleOneDispatcher("R04.7")
-	c.ruleDispatcherJoined("R04.7")
+	c.ruleDispatcherJoined("R04.8")
 }
 
 func (c *Ctx) ruleComparatorTable(rule string, r *pqRoles) {
